@@ -305,7 +305,7 @@ def histories(draw, feats, sizes):
     for _ in range(n):
         kind = draw(st.sampled_from(['valid', 'valid', 'valid', 'rule', 'malformed', 'truncated']))
         if kind == 'rule':
-            base, s, fk, style = draw(c06.faulty(feats, sizes))
+            base, s, fk, style = draw(c06.faulty(feats, sizes))[:4]
             from ..surface import write
             text, _ = write(s, style)
             props = s.allow_properties
